@@ -25,7 +25,7 @@ func checkC13(c *Ctx) {
 	c.Rule("C13.R3", "model evaluation, same runs: for every pair of consecutive kept vertices the distance of each dropped vertex to the replacing segment was asked and answered 'within tolerance'; when vertices were dropped the replacing segment was tested — and found simple — against the kept output before it, the rest of the curve and the other curves")
 	c.Rule("C13.R5", "the deviation of a skipped vertex is its distance to the replacing *segment*: the point-to-segment distance clamps the projection parameter to [0,1] and never divides 0 by 0")
 	c.Rule("C13.R6", "the segment-intersection routine behind the simplicity test is exact: a tolerance that multiplies the squared segment lengths in its parallel/collinear tests is the constant 0 (a positive one classifies a shallow crossing as parallel and reports no intersection)")
-	c.Rule("C13.R4", "model evaluation: with every deviation question answered alike (all within the tolerance; all beyond it) and every shortcut simple, MultiLineString.Simplify and MultiPolygon.Simplify return at index i what LineString.Simplify / Polygon.Simplify returns for member i alone, over the full range, leaving the receiver unchanged and unshared")
+	c.Rule("C13.R4", "model evaluation: with every deviation question answered alike (all within the tolerance; all beyond it), and with one vertex skippable but not two (where the simplicity test is asked — and must be asked about the member's own curves only), every shortcut simple, MultiLineString.Simplify and MultiPolygon.Simplify return at index i what LineString.Simplify / Polygon.Simplify returns for member i alone, over the full range, leaving the receiver unchanged and unshared")
 	a := &c13{c: c, info: c.P.Pkg("geom").TypesInfo}
 	c13model(c)
 	segDistModel(c, "C13.R5")
